@@ -998,7 +998,7 @@ func runC12(ctx *core.Ctx) {
 		}
 		return t
 	}
-	n := ctx.Pick(12000, 250000)
+	n := ctx.Pick(9000, 250000)
 	for i := 0; i < n; i++ {
 		malformed := i%4 == 3
 		t := randTree(malformed)
@@ -1025,7 +1025,7 @@ func runC12(ctx *core.Ctx) {
 		}
 	}
 	// random strings for the string-level functions
-	for i, n := 0, ctx.Pick(20000, 400000); i < n; i++ {
+	for i, n := 0, ctx.Pick(15000, 400000); i < n; i++ {
 		p := randPath()
 		ctx.Add("c12.join", joinArgs{A: randPath(), B: p})
 		ctx.Add("c12.winabs", pArgs{P: p})
